@@ -9,6 +9,7 @@ import (
 
 	"github.com/miekg/dns"
 	"github.com/semihalev/sdns/internal/contextutil"
+	"github.com/semihalev/sdns/internal/dnsutil"
 	"github.com/semihalev/sdns/internal/wire"
 )
 
@@ -981,13 +982,28 @@ func (ch *Chain) CancelWithRcode(rcode int, do bool) {
 		}
 	}
 	m := new(dns.Msg)
-	m.Extra = req.Extra
 	m.SetRcode(req, rcode)
 	m.RecursionAvailable = true
 	m.RecursionDesired = true
 
-	if opt := m.IsEdns0(); opt != nil {
+	// The reply gets an OPT of its own when the request had one. Handing
+	// back the request's additional section reflected everything the
+	// client had put there whenever the caller sits in front of the edns
+	// handler (rate limiter, reflex, recovery): its subnet, padding and
+	// private options, its advertised size, even extra records. Only the
+	// cookie option crosses over: BADCOOKIE exists to carry the server
+	// cookie back against the client cookie that was sent.
+	if ropt := req.IsEdns0(); ropt != nil {
+		opt := &dns.OPT{Hdr: dns.RR_Header{Name: ".", Rrtype: dns.TypeOPT}}
+		opt.SetUDPSize(dnsutil.DefaultMsgSize)
 		opt.SetDo(do)
+		for _, option := range ropt.Option {
+			if cookie, ok := option.(*dns.EDNS0_COOKIE); ok {
+				opt.Option = append(opt.Option, cookie)
+				break
+			}
+		}
+		m.Extra = []dns.RR{opt}
 	}
 
 	_ = ch.Writer.WriteMsg(m)
